@@ -158,6 +158,363 @@ def cmd_build(args):
     return 0
 
 
+
+# ====================================================================== checks
+PROPS = {
+    # prop: (level, [(variant, share_of_budget)], technique, level_text)
+    "C01": ("exploration", [("plain", 1.0)]),
+    "C02": ("exploration", [("plain", 1.0)]),
+    "C03": ("exploration", [("plain", 1.0)]),
+    "C04": ("exploration", [("plain", 1.0)]),
+    "C05": ("exploration", [("plain", 1.0)]),
+    "C06": ("exploration", [("plain", 1.0)]),
+    "C07": ("exploration", [("plain", 0.6), ("asan", 0.4)]),
+    "C08": ("exploration", [("plain", 1.0)]),
+    "C09": ("exploration", [("plain", 1.0)]),
+    "C10": ("exploration", [("plain", 1.0)]),
+    "C11": ("exploration", [("asan", 1.0)]),
+    "C12": ("exploration", [("asan", 0.6), ("plain", 0.4)]),
+    "C13": ("exploration", [("tsan", 0.5), ("asan", 0.5)]),
+    "C14": ("fault_enumeration", [("plain", 1.0)]),
+    "C15": ("fault_enumeration", [("asan", 0.7), ("plain", 0.3)]),
+}
+TIER_BUDGET = {"quick": 24.0, "thorough": 300.0}       # seconds of search per check (all variants together)
+CHUNK = {"plain": 400, "asan": 150, "tsan": 150}
+WORKERS = {"plain": NCPU, "asan": max(2, NCPU // 2), "tsan": max(2, NCPU // 2)}
+VARIANT_BASE = {"plain": 0, "asan": 10_000_000, "tsan": 20_000_000}
+MAX_SHRINK = 6            # distinct failing signatures minimised per check
+FINDINGS_FILE = os.path.join(ROOT, "known_findings.json")
+
+
+def load_findings():
+    if not os.path.exists(FINDINGS_FILE):
+        return []
+    return json.load(open(FINDINGS_FILE)).get("findings", [])
+
+
+class Pool:
+    """Run qsim worker processes over chunks of run indexes until the deadline."""
+
+    def __init__(self, exe, prop, tier, seed, variant, scratch, deadline, nworkers, log):
+        self.exe, self.prop, self.tier, self.seed, self.variant = exe, prop, tier, seed, variant
+        self.scratch, self.deadline, self.nworkers, self.log = scratch, deadline, nworkers, log
+        self.next_index = VARIANT_BASE[variant]
+        self.stats = []          # parsed STATS objects
+        self.fails = []          # dicts: index, file, cls, oracle, sig, detail
+        self.died = []           # dicts: index, casek, casem, rc
+        self.nondet = []
+
+    def _chunk(self):
+        a = self.next_index
+        self.next_index += CHUNK[self.variant]
+        return a, self.next_index
+
+    def _worker(self, wid):
+        wscratch = os.path.join(self.scratch, "%s-w%d" % (self.variant, wid))
+        os.makedirs(wscratch, exist_ok=True)
+        pending = None
+        while time.time() < self.deadline:
+            a, b = pending if pending else self._chunk()
+            pending = None
+            remaining = max(1.0, self.deadline - time.time())
+            cmd = [self.exe, "run", "--prop", self.prop, "--tier", self.tier, "--seed", str(self.seed), "--from", str(a), "--to", str(b),
+                   "--scratch", wscratch, "--deadline", "%.1f" % remaining]
+            errf = open(os.path.join(wscratch, "stderr.txt"), "ab")
+            p = subprocess.Popen(cmd, stdout=subprocess.PIPE, stderr=errf, text=True, errors="replace")
+            last_start, last_case, done = None, (-1, 1), False
+            for line in p.stdout:
+                if line.startswith("START "):
+                    last_start = int(line.split()[1]); last_case = (-1, 1)
+                elif line.startswith("CASE "):
+                    f = line.split(); last_case = (int(f[2]), int(f[3]))
+                elif line.startswith("FAIL "):
+                    m = re.match(r"FAIL (\d+) file=(\S+) class=(\S+) oracle=(\S+) sig=(\S*) detail=(.*)", line.rstrip("\n"))
+                    if m:
+                        self.fails.append(dict(index=int(m.group(1)), file=m.group(2), cls=m.group(3), oracle=m.group(4), sig=m.group(5), detail=m.group(6), variant=self.variant))
+                elif line.startswith("NONDET "):
+                    self.nondet.append(line.strip())
+                elif line.startswith("STATS "):
+                    try:
+                        self.stats.append(json.loads(line[6:]))
+                    except Exception as e:
+                        self.log.write("bad STATS line: %s\n" % e)
+                elif line.startswith("DONE"):
+                    done = True
+            rc = p.wait()
+            errf.close()
+            if not done:
+                # the worker died inside run last_start: that is a verdict about that run; carry on after it
+                if last_start is None:
+                    self.log.write("worker died before its first run rc=%s\n" % rc)
+                    self.died.append(dict(index=a, casek=-1, casem=1, rc=rc, variant=self.variant, startup=True))
+                    return
+                self.died.append(dict(index=last_start, casek=last_case[0], casem=last_case[1], rc=rc, variant=self.variant))
+                if last_start + 1 < b:
+                    pending = (last_start + 1, b)
+
+    def run(self):
+        with ThreadPoolExecutor(self.nworkers) as ex:
+            list(ex.map(self._worker, range(self.nworkers)))
+
+
+def qsim_lines(cmd):
+    r = sh(cmd)
+    return r.returncode, r.stdout
+
+
+def parse_kv(line):
+    out = {}
+    m = re.search(r" detail=(.*)$", line)
+    if m:
+        out["detail"] = m.group(1)
+        line = line[:m.start()]
+    for tok in line.split():
+        if "=" in tok:
+            k, v = tok.split("=", 1)
+            out[k] = v
+    return out
+
+
+def base_class(c):
+    return c.split("@")[0]
+
+
+def cmd_check(argv):
+    prop = argv[0]
+    tier = os.environ.get("VERIF_TIER", "quick")
+    if "--tier" in argv:
+        tier = argv[argv.index("--tier") + 1]
+    seed = int(os.environ.get("VERIF_SEED", "20260928"))
+    budget = float(os.environ.get("VERIF_BUDGET", TIER_BUDGET[tier]))
+    if prop not in PROPS:
+        print("unknown or not-applicable property %s" % prop)
+        return 2
+    level, variants = PROPS[prop]
+    t0 = time.time()
+    os.makedirs(BUILD, exist_ok=True)
+    os.makedirs(os.path.join(ROOT, "replays"), exist_ok=True)
+    os.makedirs(os.path.join(ROOT, "evidence"), exist_ok=True)
+    rundir = new_rundir()
+    log = open(os.path.join(rundir, "check.log"), "w")
+    exes, notes = {}, []
+    for v, _ in variants:
+        exes[v], mask, n = build_variant(v, rundir, log)
+        notes += n
+    build_s = time.time() - t0
+    findings = [f for f in load_findings() if f["property"] == prop]
+    known = [f for f in findings if f["status"] == "known"]
+    fixed = [f for f in findings if f["status"] == "fixed"]
+    violations = []        # (what, replay_path)
+    known_seen = {}
+    harness_errors = []
+    scratch = os.path.join(rundir, "scratch")
+    os.makedirs(scratch, exist_ok=True)
+
+    def variant_exe(v):
+        return exes.get(v) or exes[variants[0][0]]
+
+    # ---- committed replays first: known findings are announced deterministically, fixed ones must hold
+    regress = 0
+    for f in findings:
+        path = os.path.join(ROOT, f["replay"])
+        v = f.get("variant", variants[0][0])
+        if v not in exes:
+            continue
+        rc, out = qsim_lines([exes[v], "replay", path, "--scratch", scratch])
+        line = [l for l in out.splitlines() if l.startswith("REPLAY")]
+        kv = parse_kv(line[0]) if line else {}
+        failed = bool(line) and line[0].startswith("REPLAY violated")
+        regress += 1
+        if f["status"] == "known":
+            if failed and base_class(kv.get("class", "")) + "|" + kv.get("oracle", "") == f["class_oracle"]:
+                print("KNOWN-FINDING: property=%s %s (replay %s)" % (prop, f["what"], f["replay"]))
+                known_seen[f["signature"]] = known_seen.get(f["signature"], 0) + 1
+            elif failed:
+                violations.append(("committed replay of a known finding now fails differently: %s" % kv.get("detail", ""), path, kv))
+            else:
+                log.write("known finding %s no longer reproduces\n" % f["replay"])
+        else:
+            if failed:
+                violations.append(("regression of fixed finding (%s): %s" % (f["what"], kv.get("detail", "")), path, kv))
+    # ---- seeded search
+    pools = []
+    search_t0 = time.time()
+    for v, share in variants:
+        deadline = time.time() + budget * share
+        pool = Pool(exes[v], prop, tier, seed, v, scratch, deadline, WORKERS[v], log)
+        pool.run()
+        pools.append(pool)
+    search_s = time.time() - search_t0
+    # ---- triage failures: minimise, gate, match known findings
+    cand = []
+    for pool in pools:
+        for f in pool.fails:
+            cand.append(f)
+        for d in pool.died:
+            if d.get("startup"):
+                harness_errors.append("worker failed to start (rc %s)" % d["rc"])
+                continue
+            path = os.path.join(scratch, "died-%s-%d.json" % (d["variant"], d["index"]))
+            cmd = [exes[d["variant"]], "gen", "--prop", prop, "--tier", tier, "--seed", str(seed), "--index", str(d["index"])]
+            if d["casek"] >= 0:
+                cmd += ["--casek", str(d["casek"]), "--casem", str(d["casem"])]
+            rc, out = qsim_lines(cmd)
+            open(path, "w").write(out)
+            cand.append(dict(index=d["index"], file=path, cls="died", oracle="crash", sig="died:%s" % d["rc"], detail="worker died (rc %s)" % d["rc"], variant=d["variant"]))
+        for n in pool.nondet:
+            harness_errors.append("in-run determinism re-check failed: " + n)
+    # group by coarse signature, keep the smallest-index representative of each
+    groups = {}
+    for f in sorted(cand, key=lambda f: f["index"]):
+        key = (f["variant"], f["sig"] if f["cls"] != "died" else "died")
+        groups.setdefault(key, []).append(f)
+    shrunk = 0
+    unknown_seen = set()
+    fail_counts = {}
+    for key, fl in sorted(groups.items(), key=lambda kv: kv[1][0]["index"]):
+        fail_counts["%s %s" % key] = len(fl)
+        reps = fl[:3] if key[1] == "died" else fl[:1]
+        for f in reps:
+            if shrunk >= MAX_SHRINK:
+                break
+            shrunk += 1
+            out_path = os.path.join(ROOT, "replays", "%s-%x-%d.json" % (prop, seed, f["index"]))
+            rc, out = qsim_lines([exes[f["variant"]], "shrink", f["file"], "--out", out_path, "--scratch", scratch, "--max", "300" if tier == "quick" else "600"])
+            line = [l for l in out.splitlines() if l.startswith("SHR")]
+            if rc != 0 or not line or not line[0].startswith("SHRUNK"):
+                harness_errors.append("could not reproduce run %d in isolation: %s" % (f["index"], (line[0] if line else out.strip()[:200])))
+                continue
+            kv = parse_kv(line[0])
+            # fresh-process replay gate
+            rc2, out2 = qsim_lines([exes[f["variant"]], "replay", out_path, "--scratch", scratch])
+            if "REPRODUCED" not in out2 or "NOT-REPRODUCED" in out2:
+                harness_errors.append("minimised plan of run %d does not replay: %s" % (f["index"], out2.strip()[:200]))
+                continue
+            sig = kv.get("sig", "")
+            co = base_class(kv.get("class", "")) + "|" + kv.get("oracle", "")
+            matched = [k for k in known if k["signature"] == sig or (k.get("match_class_oracle") and k["class_oracle"] == co and sig.startswith(k["signature"].split("|")[0] + "|"))]
+            if matched:
+                known_seen[matched[0]["signature"]] = known_seen.get(matched[0]["signature"], 0) + len(fl)
+                os.unlink(out_path)
+                continue
+            if sig in unknown_seen:
+                os.unlink(out_path)
+                continue
+            unknown_seen.add(sig)
+            violations.append((kv.get("detail", ""), out_path, kv))
+    # ---- evidence
+    ev = build_evidence(prop, tier, seed, level, pools, variants, notes, known_seen, violations, fail_counts, harness_errors, build_s, search_s, time.time() - t0, regress)
+    json.dump(ev, open(os.path.join(ROOT, "evidence", "%s.json" % prop), "w"), indent=1)
+    for what, path, kv in violations:
+        print("VIOLATION property=%s replay=%s" % (prop, path))
+        print("  class=%s oracle=%s signature=%s" % (kv.get("class", "?"), kv.get("oracle", "?"), kv.get("sig", "?")))
+        print("  %s" % what[:400])
+    tot_runs = sum(s["runs"] for p in pools for s in p.stats)
+    tot_cases = sum(s["cases"] for p in pools for s in p.stats)
+    print("%s %s: %d runs (%d cases) in %.1fs search (+%.1fs build), %d distinct non-trivial, violations=%d known=%d%s" % (
+        prop, tier, tot_runs, tot_cases, search_s, build_s, ev["coverage"]["distinct_nontrivial"], len(violations), sum(known_seen.values()),
+        (" harness-errors=%d" % len(harness_errors)) if harness_errors else ""))
+    if harness_errors:
+        for h in harness_errors[:5]:
+            print("HARNESS-ERROR: %s" % h)
+        if not violations:
+            return 2
+    return 1 if violations else 0
+
+
+COMPONENTS = {
+    "real": ["qlibc container/utility/internal C sources compiled from /repo's working tree with the shipped flags (-std=gnu99 -O2 -g -DNDEBUG) plus the variant's sanitizer",
+             "glibc recursive pthread mutex (executed inside the wrapped trylock/unlock)", "glibc/ASan allocator underneath the wrapped malloc family",
+             "real files in a private scratch directory for qlisttbl save/load"],
+    "stubbed": ["thread scheduling (baton scheduler decides who runs at every trylock/unlock/usleep/op boundary)", "usleep (advances simulated microseconds, never sleeps)",
+                "time() (simulated clock)", "allocation failure (injected by the wrapped malloc/calloc/realloc/strdup)"],
+}
+RULES = {
+    "default": "cases = seeded operation histories (one PRNG stream from VERIF_SEED x property x tier x run index decides configuration, operations, arguments, faults and schedule). "
+               "distinct_nontrivial = number of distinct hashes of (world, full result trace, schedule) among runs with >= 3 successful mutations"
+               " and (in fault/thread modes) at least one fault fired or context switch taken",
+}
+
+
+def build_evidence(prop, tier, seed, level, pools, variants, notes, known_seen, violations, fail_counts, harness_errors, build_s, search_s, wall_s, regress):
+    counters, worlds, nontrivial, scheds, samples = {}, {}, set(), set(), []
+    runs = cases = truncated = rechecked = 0
+    per_variant = {}
+    for p in pools:
+        vr = 0
+        for s in p.stats:
+            runs += s["runs"]; cases += s["cases"]; truncated += s["truncated"]; rechecked += s["rechecked"]; vr += s["runs"]
+            for k, v in s["counters"].items():
+                counters[k] = counters.get(k, 0) + v
+            for k, v in s["worlds"].items():
+                worlds[k] = worlds.get(k, 0) + v
+            nontrivial.update(s["nontrivial"])
+            scheds.update(s["schedules"])
+            if len(samples) < 3:
+                samples += s["samples"][:1]
+        per_variant[p.variant] = dict(runs=vr, died=len(p.died), failing_runs=len(p.fails))
+    faults = {}
+    for k, v in counters.items():
+        m = re.match(r"fault\.([a-z]+)\.(planned|fired)$", k)
+        if m:
+            faults.setdefault(m.group(1), {})[m.group(2)] = v
+    probes = {k[6:]: v for k, v in counters.items() if k.startswith("probe.")}
+    cfgs = {k[4:]: v for k, v in counters.items() if k.startswith("cfg.")}
+    collateral = {k: v for k, v in counters.items() if k.startswith("collateral")}
+    other = {k: v for k, v in counters.items() if not re.match(r"(fault|probe|cfg|collateral)", k)}
+    if not samples:
+        samples = ["(no run completed)"]
+    cov = {
+        "evaluations": max(cases, 0),
+        "distinct_nontrivial": len(nontrivial),
+        "rule": RULES["default"],
+        "samples": samples,
+        "runs": runs,
+        "committed_replays_executed": regress,
+        "seeds_per_hour": int(runs / max(search_s, 0.001) * 3600),
+        "sim_steps": {"operations": other.get("ops", 0), "scheduler_decisions": other.get("sched.decisions", 0), "context_switches": other.get("sched.switches", 0),
+                      "allocations_inside_sut": other.get("allocs", 0)},
+        "sim_time_us": other.get("sim_us", 0),
+        "faults": faults,
+        "fault_enumeration": {"targets": other.get("enum.targets", 0), "allocation_points": other.get("enum.target_allocs", 0),
+                              "reported_failure": counters.get("fault.reported_failure", 0), "survived": counters.get("fault.survived", 0),
+                              "ctor_reported_failure": counters.get("fault.ctor_reported_failure", 0), "ctor_survived": counters.get("fault.ctor_survived", 0)},
+        "probes": probes,
+        "configurations": cfgs,
+        "distinct_schedules": len(scheds),
+        "worlds": worlds,
+        "variants": per_variant,
+        "truncated_runs": truncated,
+        "determinism_rechecks": rechecked,
+        "other_counters": other,
+        "collateral_other_properties": collateral,
+        "known_findings_seen": known_seen,
+        "failing_signatures": fail_counts,
+        "harness_errors": harness_errors,
+        "components": COMPONENTS,
+        "notes": notes,
+        "exhaustive": False,
+    }
+    return {
+        "property_id": prop, "tier": tier, "seed": seed, "level": level, "coverage": cov,
+        "assumptions": ["sampling, not proof: a clean batch is evidence only", "the sequential reference models in qsim/w_*.cpp state the ideal behaviour",
+                        "glibc mutex semantics and the sanitizer runtimes are trusted", "scheduling granularity is lock/unlock/usleep/operation boundaries; instruction-level races are left to the TSan-in-simulation oracle"],
+        "wall_s": round(wall_s, 2), "violations": len(violations),
+    }
+
+
+def cmd_replay(argv):
+    path = argv[0]
+    plan = json.load(open(path))
+    v = plan.get("variant") or "plain"
+    rundir = new_rundir()
+    log = open(os.path.join(rundir, "replay.log"), "w")
+    exe, _, _ = build_variant(v, rundir, log)
+    cmd = [exe, "replay", path, "--scratch", rundir] + (["--verbose"] if "--verbose" in argv else [])
+    r = subprocess.run(cmd)
+    return r.returncode
+
+
 def cmd_dev(args):
     """developer helper: build one variant into build/dev (kept)"""
     d = os.path.join(BUILD, "dev")
@@ -177,6 +534,10 @@ def main(argv):
         return cmd_build(argv[1:])
     if argv[0] == "dev":
         return cmd_dev(argv[1:])
+    if argv[0] == "check":
+        return cmd_check(argv[1:])
+    if argv[0] == "replay":
+        return cmd_replay(argv[1:])
     print(__doc__)
     return 2
 
